@@ -3443,6 +3443,11 @@ func ParseOptions(useDefaults bool, args []string) (*Options, error) {
 		return nil, err
 	}
 
+	// The history file is loaded as soon as it is named; the size limit may follow
+	if opts.History != nil {
+		opts.History.trim()
+	}
+
 	// 4. Change default scheme when built-in walker is used
 	if len(opts.Scheme) == 0 {
 		opts.Scheme = "default"
